@@ -68,7 +68,7 @@ def rerun(ctx, h):
     return bool(ctx.validate("Trace_Ports", [new], shards=1)), new
 
 
-def rerun_retry(ctx, h, tries=5):
+def rerun_retry(ctx, h, tries=8):
     """histories with concurrent senders / racing stops are schedule dependent: a rejection counts as reproduced if any of a
     few re-executions of the same history on the real driver is rejected again"""
     conc = any(s["fn"] in ("SendPar", "BurstStop") for s in h["steps"])
